@@ -2,16 +2,16 @@ import Esp.Lemmas.ReconnectStop
 /-!
 # Reconnect manager: the failure counter is the number of consecutive failed attempts
 
-`consec log` recomputes the counter from the observable history alone: `on_connect_error` for an
-authentication / encryption error sets it to 100, any other `on_connect_error` adds one, `on_connect`
+`consec log` recomputes the counter from the history alone: a failure counted (after `on_connect_error`
+returned) for an authentication / encryption error sets it to 100, any other adds one, `on_connect`
 and the reset made by `start()` clear it.  `TL s s'` = "if the counter agreed with the history before, it
 agrees after"; every procedure satisfies it.
 -/
 namespace Esp.Reconnect
 
 def consecStep (n : Nat) : Act → Nat
-  | .onConnectError .auth => maxTries
-  | .onConnectError .other => n + 1
+  | .failCounted .auth => maxTries
+  | .failCounted .other => n + 1
   | .onConnect => 0
   | .resetTries => 0
   | _ => n
@@ -22,7 +22,7 @@ theorem consec_append (l : List Act) (a : Act) : consec (l ++ [a]) = consecStep 
   simp [consec, List.foldl_append]
 
 def neutral : Act → Bool
-  | .onConnectError _ | .onConnect | .resetTries => false
+  | .failCounted _ | .onConnect | .resetTries => false
   | _ => true
 
 theorem consecStep_neutral (n : Nat) (a : Act) (h : neutral a = true) : consecStep n a = n := by
@@ -82,11 +82,6 @@ theorem tl_cancelConnectTask (s : St) : TL s (cancelConnectTask s) := by
 theorem tl_cancelConnect (s : St) : TL s (cancelConnect s) :=
   (TL.ofEq (s' := cancelTimer s) rfl rfl).trans (tl_cancelConnectTask _)
 
-theorem tl_handleFailure (s : St) (k : ErrK) : TL s (handleFailure s k) := by
-  intro h0
-  simp only [handleFailure, emit, setState, consec_append]
-  cases k <;> simp [consecStep, h0]
-
 theorem tl_release (s : St) : TL s (release s) := TL.ofEq (by simp) (by simp)
 theorem tl_finish (s : St) (tid : Nat) : TL s (finish s tid) := TL.ofEq rfl rfl
 
@@ -102,6 +97,22 @@ theorem tl_afterFail (s : St) (tid : Nat) : TL s (afterFail s tid) := by
       timer := some ((if backoff s.tries ≠ 0 then startZc s else s).now + backoff s.tries) }) rfl rfl).trans ?_
   exact tl_emit _ _ rfl
 
+theorem tl_failEnd (s : St) (k : ErrK) (tid : Nat) : TL s (failEnd s k tid) := by
+  unfold failEnd
+  refine TL.trans (b := emit { s with tries := if k = .auth then maxTries else s.tries + 1 } (.failCounted k)) ?_ (tl_afterFail _ tid)
+  intro h0
+  simp only [emit, consec_append]
+  cases k <;> simp [consecStep, h0]
+
+theorem tl_failBegin (s : St) (k : ErrK) (tid : Nat) : TL s (failBegin s k tid) := by
+  unfold failBegin
+  dsimp only
+  have e1 : TL s (emit (setState s .disconnected) (.onConnectError k)) :=
+    (TL.ofEq (s' := setState s .disconnected) rfl rfl).trans (tl_emit _ _ rfl)
+  split
+  · exact e1.trans (TL.ofEq rfl rfl)
+  · exact e1.trans (tl_failEnd _ k tid)
+
 theorem tl_acquire (s : St) (tid : Nat) : TL s (acquire s tid).1 := by
   unfold acquire; split <;> exact TL.ofEq rfl rfl
 
@@ -113,7 +124,7 @@ theorem tl_connectLocked (s : St) (tid : Nat) : TL s (connectLocked s tid) := by
     have h1 : TL s (emit (setState s .connecting) .attempt) :=
       (TL.ofEq (s' := setState s .connecting) rfl rfl).trans (tl_emit _ _ rfl)
     split
-    · exact h1.trans ((tl_handleFailure _ _).trans (tl_afterFail _ tid))
+    · exact h1.trans (tl_failBegin _ _ tid)
     · exact h1.trans (TL.ofEq rfl rfl)
 
 theorem tl_spawnConnect (s : St) : TL s (spawnConnect s) := by
@@ -145,14 +156,22 @@ theorem tl_scheduleConnect (s : St) (d : Nat) : TL s (scheduleConnect s d) := by
   · exact tl_callConnectOnce s
   · exact (TL.ofEq (s' := { cancelTimer s with timer := some (s.now + d) }) rfl rfl).trans (tl_emit _ _ rfl)
 
-theorem tl_discLocked (s : St) (tid : Nat) (e : Bool) : TL s (discLocked s tid e) := by
-  unfold discLocked
+theorem tl_discEnd (s : St) (tid : Nat) (e : Bool) : TL s (discEnd s tid e) := by
+  unfold discEnd
   dsimp only
-  have h1 : TL s (finish (release (emit (setState s .disconnected) (.onDisconnect e))) tid) :=
-    (((TL.ofEq (s' := setState s .disconnected) rfl rfl).trans (tl_emit _ _ rfl)).trans (tl_release _)).trans (tl_finish _ _)
+  have h1 : TL s (finish (release s) tid) := (tl_release s).trans (tl_finish _ _)
   split
   · exact h1
   · exact h1.trans (tl_scheduleConnect _ _)
+
+theorem tl_discLocked (s : St) (tid : Nat) (e : Bool) : TL s (discLocked s tid e) := by
+  unfold discLocked
+  dsimp only
+  have h1 : TL s (emit (setState s .disconnected) (.onDisconnect e)) :=
+    (TL.ofEq (s' := setState s .disconnected) rfl rfl).trans (tl_emit _ _ rfl)
+  split
+  · exact h1.trans (TL.ofEq rfl rfl)
+  · exact h1.trans (tl_discEnd _ _ _)
 
 theorem tl_startLocked (s : St) (tid : Nat) : TL s (startLocked s tid) := by
   unfold startLocked
@@ -214,21 +233,37 @@ theorem tl_wakeTask (s : St) (tid : Nat) (t : Task) : TL s (wakeTask s tid t) :=
           (tl_lockedBody _ _ _)
       · exact TL.refl s
   · split
-    · exact (TL.ofEq (s' := { s with cli := .idle }) rfl rfl).trans ((tl_handleFailure _ _).trans (tl_afterFail _ tid))
+    · exact (TL.ofEq (s' := { s with cli := .idle }) rfl rfl).trans (tl_failBegin _ _ tid)
     · split
       · exact (TL.ofEq (s' := { s with cli := .finishing }) rfl rfl).trans
           ((tl_stopZc _).trans (TL.ofEq (by simp [setTask]) (by simp [setTask])))
-      · exact (TL.ofEq (s' := { s with cli := .idle }) rfl rfl).trans ((tl_handleFailure _ _).trans (tl_afterFail _ tid))
+      · exact (TL.ofEq (s' := { s with cli := .idle }) rfl rfl).trans (tl_failBegin _ _ tid)
       · exact TL.refl s
   · split
-    · exact (TL.ofEq (s' := { s with cli := .idle }) rfl rfl).trans ((tl_handleFailure _ _).trans (tl_afterFail _ tid))
+    · exact (TL.ofEq (s' := { s with cli := .idle }) rfl rfl).trans (tl_failBegin _ _ tid)
     · split
-      · refine TL.trans (b := emit (setState { s with cli := .live, tries := 0 } .ready) .onConnect) ?_
-          ((tl_release _).trans (tl_finish _ tid))
-        intro _
-        simp [emit, setState, consec_append, consecStep]
-      · exact (TL.ofEq (s' := { s with cli := .idle }) rfl rfl).trans ((tl_handleFailure _ _).trans (tl_afterFail _ tid))
+      · dsimp only
+        have e1 : TL s (emit (setState { s with cli := .live, tries := 0 } .ready) .onConnect) := by
+          intro _
+          simp [emit, setState, consec_append, consecStep]
+        split
+        · exact e1.trans (TL.ofEq rfl rfl)
+        · exact e1.trans ((tl_release _).trans (tl_finish _ tid))
+      · exact (TL.ofEq (s' := { s with cli := .idle }) rfl rfl).trans (tl_failBegin _ _ tid)
       · exact TL.refl s
+  · split
+    · exact (tl_release s).trans (tl_finish _ tid)
+    · exact TL.refl s
+  · split
+    · exact (tl_release s).trans (tl_finish _ tid)
+    · split
+      · exact tl_failEnd s _ tid
+      · exact TL.refl s
+  · split
+    · split
+      · exact tl_discEnd s tid _
+      · exact TL.refl s
+    · exact TL.refl s
 
 theorem tl_step (s : St) (e : Ev) : TL s (step s e) := by
   cases e with
@@ -242,6 +277,10 @@ theorem tl_step (s : St) (e : Ev) : TL s (step s e) := by
   | startDone r | finishDone r =>
     simp only [step]
     unfold complete
+    split <;> exact TL.ofEq rfl rfl
+  | cbDone =>
+    simp only [step]
+    unfold completeCb
     split <;> exact TL.ofEq rfl rfl
   | sessionEnd e =>
     simp only [step]
@@ -275,7 +314,8 @@ theorem tl_step (s : St) (e : Ev) : TL s (step s e) := by
         exact (TL.ofEq (s' := { s with ready := rest }) rfl rfl).trans (tl_wakeTask _ tid t)
       · exact TL.ofEq rfl rfl
 
-theorem tries_eq_consec (named : Bool) (evs : List Ev) : (run (init named) evs).tries = consec (run (init named) evs).log := by
+theorem tries_eq_consec (named : Bool) (evs : List Ev) (c e d : Bool := false) :
+    (run (init named c e d) evs).tries = consec (run (init named c e d) evs).log := by
   have : ∀ (s : St), s.tries = consec s.log → (run s evs).tries = consec (run s evs).log := by
     induction evs with
     | nil => intro s h; exact h
